@@ -66,6 +66,14 @@ class FuncObj:
         return f"Func<{self.name}>"
 
 
+class SuperObj:
+    """the value of super() inside a method: `recv` seen as an instance of the bases of `cls`"""
+
+    def __init__(self, recv, cls):
+        self.recv = recv
+        self.cls = cls
+
+
 class ModuleObj:
     def __init__(self, dotted):
         self.dotted = dotted
